@@ -133,6 +133,18 @@ type serverStream struct {
 }
 
 func (s *serverStream) SetHeader(md metadata.MD) error {
+	if md.Len() == 0 {
+		return nil
+	}
+	s.headerM.Lock()
+	defer s.headerM.Unlock()
+
+	select {
+	case <-s.headerC:
+		// the client may already be reading the headers, they can no longer change
+		return errors.New("headers already sent")
+	default:
+	}
 	s.header = metadata.Join(s.header, md)
 	return nil
 }
